@@ -279,7 +279,7 @@ pub fn run(eng: &mut Engine) {
         "'on a path' = on a call sequence (walk, calls may repeat) from source to target: call u->v with R*(source,u) and R*(v,target), R* reflexive; for source == target exactly the calls on cycles through the function".into(),
         "call TIDs are unique; queried TIDs are subs of the program (documented panic otherwise)".into(),
     ];
-    let cases = eng.tier.pick(500_000u64, 8_000_000u64);
+    let cases = eng.tier.pick(2_000_000u64, 8_000_000u64);
     eng.random(
         "all-pairs",
         RandomSpec { cases, max_tape: 200 },
